@@ -97,7 +97,7 @@ Definition is_cold (x : pctx) : bool := match x with XCold => true | _ => false 
 
 (* a claimed ticket run [rt, rt+rm): the first rv tickets get SET, the rest SKIP; rw slots written so far.
    try_send_now's single ticket is the run (t, 1 or 0, 1, 0). *)
-Record run := mkRun { rt : N; rv : N; rm : N; rw : N }.
+Record trun := mkRun { rt : N; rv : N; rm : N; rw : N }.
 (* try_send_run_batch's locals: on the cold path?, items sent so far, total items *)
 Record bctx := mkB { bcold : bool; bsent : N; btotal : N }.
 (* who called the write phase (ensure_resident .. notify_receiver) *)
@@ -113,15 +113,15 @@ Inductive ppc_t :=
 | PS2 (x : pctx) (a : N)                      (*              progress|drained .load *)
 | PS3 (x : pctx)                              (* g_tail.fetch_add(1) *)
 | PS4 (x : pctx) (t : N)                      (* credit_ok: progress|drained .load *)
-| PE1 (k : kctx) (r : run)                    (* ensure_resident: id.load *)
-| PE2 (k : kctx) (r : run) (cur : N)          (*               consumer_retired.load *)
-| PEs (k : kctx) (r : run) (cur : N)          (*               spin_loop *)
-| PE3 (k : kctx) (r : run) (cur : N)          (*               id.compare_exchange *)
-| PW0 (k : kctx) (r : run)                    (* write_slot / resolve_run: payload write (SET tickets only) *)
-| PW1 (k : kctx) (r : run)                    (*             state.store SET|SKIP *)
-| PN1 (k : kctx) (r : run)                    (* notify_receiver: fence *)
-| PN2 (k : kctx) (r : run)                    (*                  sync_recv_waiter_count.load *)
-| PN3 (k : kctx) (r : run)                    (*                  async_recv_waiter_count.load *)
+| PE1 (k : kctx) (r : trun)                    (* ensure_resident: id.load *)
+| PE2 (k : kctx) (r : trun) (cur : N)          (*               consumer_retired.load *)
+| PEs (k : kctx) (r : trun) (cur : N)          (*               spin_loop *)
+| PE3 (k : kctx) (r : trun) (cur : N)          (*               id.compare_exchange *)
+| PW0 (k : kctx) (r : trun)                    (* write_slot / resolve_run: payload write (SET tickets only) *)
+| PW1 (k : kctx) (r : trun)                    (*             state.store SET|SKIP *)
+| PN1 (k : kctx) (r : trun)                    (* notify_receiver: fence *)
+| PN2 (k : kctx) (r : trun)                    (*                  sync_recv_waiter_count.load *)
+| PN3 (k : kctx) (r : trun)                    (*                  async_recv_waiter_count.load *)
 | PB1 (b : bctx)                              (* try_send_batch: receivers_alive *)
 | PL1 (b : bctx)                              (* try_send_run_batch loop: receivers_alive *)
 | PC0 (b : bctx)                              (* claim_run(+_cold): run_cap.load *)
@@ -329,11 +329,11 @@ Section Steps.
 
   (* the write phase: which item of the call goes into the next SET slot *)
   Definition kitem (k : kctx) : N := match k with KOne _ => 0 | KBatch b => bsent b end.
-  Definition rcur (r : run) : N := rt r + rw r.                 (* the ticket being resolved *)
-  Definition rset (r : run) : bool := N.ltb (rw r) (rv r).      (* .. gets SET (else SKIP) *)
+  Definition rcur (r : trun) : N := rt r + rw r.                 (* the ticket being resolved *)
+  Definition rset (r : trun) : bool := N.ltb (rw r) (rv r).      (* .. gets SET (else SKIP) *)
 
   (* after ensure_resident returned: the payload write (SET) or directly the state store (SKIP) *)
-  Definition p_resident (s : st) (t : nat) (k : kctx) (r : run) : st :=
+  Definition p_resident (s : st) (t : nat) (k : kctx) (r : trun) : st :=
     set_ppc_at s t (if rset r then PW0 k r else PW1 k r).
 
   (* try_send_run_batch, top of the loop *)
@@ -518,14 +518,18 @@ Section Steps.
               eLoad VGtail OAcq (gtail s))
     | CUnl d r =>
         let s1 := set_hlock s false in
-        Some (match d, r with
-              | DRun _ _ _, QGot => set_cpc s1 (CFl FVals)
-              | DRun R1 max _, _ => set_cpc s1 (CFl (FRun0 max))
-              | DRun R2 _ _, _ => c_done s1 RDisc
-              | _, QGot => c_done_vals s1
-              | DTry1, QEmpty => set_cpc s1 (CSa None)
-              | DTry1, QInFlight => set_cpc s1 (CFl FEmpty)
-              | DTry2, _ => set_cpc s1 (CFl FDisc)
+        Some (match d with
+              | DRun site max got =>
+                  if N.eqb got 0
+                  then match site with R1 => set_cpc s1 (CFl (FRun0 max)) | R2 => c_done s1 RDisc end
+                  else set_cpc s1 (CFl FVals)
+              | DTry1 =>
+                  match r with
+                  | QGot => c_done_vals s1
+                  | QEmpty => set_cpc s1 (CSa None)
+                  | QInFlight => set_cpc s1 (CFl FEmpty)
+                  end
+              | DTry2 => match r with QGot => c_done_vals s1 | _ => set_cpc s1 (CFl FDisc) end
               end, eUnlock VHead)
     | CP1 u => Some (set_cpc (set_unpub (set_drained s (hpos s)) 0) (CP2 u), eStore VDrained ORel (hpos s))
     | CP2 u => Some (set_cpc (set_progress s (hpos s)) (CP3 u), eStore VProgress ORel (hpos s))
